@@ -547,6 +547,16 @@ Theorem C10_load_root_partial_witness :
     TinyL.ld w = Val (OK fid, w') /\ nth_opt (w_models w') 0 = Some x' /\ ~ FilesInvW w' x'.
 Proof. exact root_partial_witness. Qed.
 
+(* [F] rule (c) is NOT kept by a merge, even when the root is in all files: an element that only the model has gets an
+   explicit set below a parent that is not splittable (AR-PACKAGE/ELEMENTS on the tiny tables; the same happens in the
+   library): this is why the load theorems speak of FilesInvW, and why FilesInv cannot be an invariant of histories
+   that contain load_buffer *)
+Theorem C10_load_rule_c_witness :
+  exists (w : world) (x : model) (w' : world) (x' : model) (fid : N),
+    TreeInv w /\ FilesInv TinyF.tiny w /\ FilesOwned w /\ nth_opt (w_models w) 0 = Some x /\ RootFull w x /\
+    TinyL.ld_c w = Val (OK fid, w') /\ nth_opt (w_models w') 0 = Some x' /\ ~ FilesInvM TinyF.tiny w' x'.
+Proof. exact rule_c_witness. Qed.
+
 (* ---------- the WHOLE alphabet op2, OpLoad and OpDuplicate included: Core (C03_core_inv2) and FilesOwned are kept by
    every step outside C03's Known_load (a merge that uses an incoming element twice; a load rejected with
    InvalidFileMerge: the rollback).  No other exclusion. ---------- *)
